@@ -20,7 +20,9 @@
  *   sget <size> <offbits> <seg> <w>...
  *                                   ubuf_block_stream over a segmented block
  *                                   ubuf holding a copy of buf[0,size);
- *                                   seg = all | le2 | a+b+c (explicit sizes)
+ *                                   seg = all | le2 | a+b+c (explicit sizes), optionally prefixed by
+ *                                   w<pre>.<post>: the reader is given a window spliced out of a larger
+ *                                   block (pre / post foreign octets in the first / last segment)
  *   end                             end of the execution
  *
  * Reader contract respected here: at most 24 bits are requested from
@@ -224,20 +226,28 @@ static void cmd_oget(long size, int off, int nw, const int *ws)
     printf("rdone r=%d g=%d\n", r, guards_intact());
 }
 
+/* window mode (seg token "w<pre>.<post>:<seg>"): the readers are given a WINDOW spliced out of a larger
+ * block - pre foreign octets (0xa5) in front, in the first segment, and post behind, in the last one, so
+ * that the window crosses the segment boundaries and ends inside a segment */
+static long win_pre, win_post;
+
 static struct ubuf *build_block(long size, int nseg, const int *segs)
 {
     struct ubuf *head = NULL;
     long pos = 0;
     for (int k = 0; k < nseg; k++) {
-        struct ubuf *u = ubuf_block_alloc(ubuf_mgr, segs[k]);
+        long extra_front = (k == 0) ? win_pre : 0, extra_back = (k == nseg - 1) ? win_post : 0;
+        long total = extra_front + segs[k] + extra_back;
+        struct ubuf *u = ubuf_block_alloc(ubuf_mgr, total);
         if (u == NULL) { printf("err alloc\n"); exit(3); }
-        if (segs[k] > 0) {
+        if (total > 0) {
             int sz = -1;
             uint8_t *w;
-            if (!ubase_check(ubuf_block_write(u, 0, &sz, &w)) || sz != segs[k]) {
+            if (!ubase_check(ubuf_block_write(u, 0, &sz, &w)) || sz != total) {
                 printf("err write\n"); exit(3);
             }
-            memcpy(w, buf + pos, segs[k]);
+            memset(w, 0xa5, total);
+            memcpy(w + extra_front, buf + pos, segs[k]);
             ubuf_block_unmap(u, 0);
         }
         pos += segs[k];
@@ -248,6 +258,12 @@ static struct ubuf *build_block(long size, int nseg, const int *segs)
         }
     }
     assert(pos == size);
+    if (win_pre || win_post) {
+        struct ubuf *win = ubuf_block_splice(head, win_pre, size);
+        if (win == NULL) { printf("err splice\n"); exit(3); }
+        ubuf_free(head);
+        return win;
+    }
     return head;
 }
 
@@ -297,6 +313,14 @@ static void one_segmentation(long size, int off, int nseg, const int *segs,
 static void cmd_sget(long size, int off, const char *seg, int nw, const int *ws)
 {
     if (size > wend) size = wend;
+    win_pre = win_post = 0;
+    if (seg[0] == 'w') {
+        char *e;
+        win_pre = strtol(seg + 1, &e, 10);
+        if (*e == '.') win_post = strtol(e + 1, &e, 10);
+        if (*e != ':') { printf("err window\n"); exit(3); }
+        seg = e + 1;
+    }
     int segs[MAXSEG];
     nouts = 0;
     if (!strcmp(seg, "all") || !strcmp(seg, "le2")) {
